@@ -3,6 +3,7 @@ package harness
 import (
 	"fmt"
 	"io"
+	"regexp"
 	"strings"
 
 	"github.com/200sc/bebop"
@@ -30,6 +31,8 @@ func (namedReader) Name() string { return "sim.bop" }
 var junk = []string{"/*", "/* x", "/* x *", "\"abc", "\"a\\", "//", "// c", "/", "-", "-i", "-in", "0x", "1.", "1e", "1.5.", "\x00", "\xff\xfe", "é", "日本",
 	"#", "@", "$", "`", "'", "<", ">", ">", "<<", ">>", "struct", "message M {", "enum E : ", "enum E {", "[", "[opcode(", "[opcode(\"abcd\")]", "[deprecated(\"x\")]",
 	"[flags]", "map[", "array[", "->", "readonly", "readonly struct", "const", "const int32 x =", "import", "import \"a.bop\"", "union U {", "1 ->", "}", "{", ";", ",",
+	"[flags]\nenum F { A = 1 |; }", "[flags]\nenum F { A = 1; B = A <<; }", "[flags]\nenum F : int64 { A = (1 | 2) &; }", "[flags]\nenum F { A = (1 |); }", "[flags]\nenum F { A = (); }",
+	"[flags]\nenum F { A = 1 << 70; }", "[flags]\nenum F { A = ; }", "[flags]\nenum F { A = 1 | | 2; }", "[flags]\nenum F { A = ((1); }", "[flags]\nenum F { A = B; }",
 	"struct S { int32 a; }", "message M { 1 -> int32 a; }", "union U { 1 -> struct A { } }", "enum E { A = 1; }", "const int32 c = 5;", "\r\n", "\t", " "}
 
 var tokenVocab = []string{"struct", "message", "enum", "union", "const", "readonly", "import", "opcode", "flags", "deprecated", "map", "array",
@@ -57,7 +60,7 @@ func runC10(c *Ctx) *Replay {
 		input = []byte(tokenVocab[k/(n*n)] + " " + tokenVocab[(k/n)%n] + " " + tokenVocab[k%n])
 		origin = "tokens3"
 	default:
-		switch r.Intn(6) {
+		switch r.Intn(8) {
 		case 0, 1: // a valid schema in some layout
 			input = []byte(c.layoutSchema())
 			origin = "valid"
@@ -79,6 +82,9 @@ func runC10(c *Ctx) *Replay {
 			}
 			input = []byte(s[:pos] + junk[r.Intn(len(junk))] + s[pos:])
 			origin = "junk"
+		case 6: // token-level mutation of a valid schema: delete, duplicate, swap or replace one token
+			input = []byte(mutateTokens(r, c.layoutSchema()))
+			origin = "tokenmut"
 		case 4: // token soup
 			n := r.Range(1, 12)
 			var sb strings.Builder
@@ -88,6 +94,9 @@ func runC10(c *Ctx) *Replay {
 			}
 			input = []byte(sb.String())
 			origin = "soup"
+		case 7:
+			input = []byte(mutateTokens(r, mutateTokens(r, c.layoutSchema())))
+			origin = "tokenmut2"
 		default: // junk only
 			n := r.Range(1, 4)
 			var sb strings.Builder
@@ -399,3 +408,44 @@ func tokenContext(in []byte, at int) string {
 }
 
 var _ = prng.New
+
+var reTok = regexp.MustCompile(`[A-Za-z_][A-Za-z0-9_]*|0x[0-9a-fA-F]+|-?[0-9]+(\.[0-9]+)?|"[^"\n]*"|//[^\n]*|/\*[^*]*\*/|->|<<|>>|\s+|.`)
+
+// mutateTokens splits text into lexical pieces and deletes, duplicates, swaps or replaces one
+// non-blank piece: the malformed inputs a real edit produces (a dangling operator, a
+// missing bracket, a doubled keyword).
+func mutateTokens(r *prng.Rand, text string) string {
+	toks := reTok.FindAllString(text, -1)
+	var idx []int
+	for i, t := range toks {
+		if strings.TrimSpace(t) != "" {
+			idx = append(idx, i)
+		}
+	}
+	if len(idx) == 0 {
+		return text
+	}
+	k := idx[r.Intn(len(idx))]
+	if r.Chance(1, 2) {
+		// bias towards the interesting places: operators, brackets, attribute parts
+		for try := 0; try < 8; try++ {
+			j := idx[r.Intn(len(idx))]
+			if strings.ContainsAny(toks[j], "|&<>()[]{};=,:") || toks[j] == "flags" || toks[j] == "opcode" || toks[j] == "deprecated" {
+				k = j
+				break
+			}
+		}
+	}
+	switch r.Intn(4) {
+	case 0:
+		toks[k] = ""
+	case 1:
+		toks[k] = toks[k] + " " + toks[k]
+	case 2:
+		j := idx[r.Intn(len(idx))]
+		toks[k], toks[j] = toks[j], toks[k]
+	default:
+		toks[k] = tokenVocab[r.Intn(len(tokenVocab))]
+	}
+	return strings.Join(toks, "")
+}
